@@ -1038,6 +1038,77 @@ Definition step (g : st) (o : op) : st * res :=
 Fixpoint run (g : st) (ops : list op) : st :=
   match ops with [] => g | o :: r => run (fst (step g o)) r end.
 
+(* ---------------------------------------------------------------- side conditions of the theorems
+   Executable predicates over (state before the operation, operation).  They are part of the model
+   so that the harness can ask for them: an operation for which links_safe is false is exactly an
+   operation of one of the defect classes recorded as findings of C16. *)
+Definition is_conflict (r : res) : bool :=
+  match r with RErr NumberConflict => true | _ => false end.
+
+(* g = node_at path; g &= e : one of the nodes on which _add_new_children_to_cell(other) runs is
+   linked to cell c (strict = false: or the result is a new object that is not put into the tree) *)
+Definition iop_linked (g : st) (c : oid) (p : list bool) (o : bop) (e : ex) (strict : bool) : bool :=
+  match fresh_ex e, c_geom (cellf g c) with
+  | Some other, Some t =>
+      match node_at t p with
+      | Some sub => let '(_, is_self, adds) := iop o sub other in
+                    orb (andb (negb strict) (negb is_self)) (existsb (fun x => opt_is x c) adds)
+      | None => true
+      end
+  | _, _ => true
+  end.
+
+(* the leaf whose divider is replaced is linked to cell c *)
+Definition div_linked (g : st) (c : oid) (p : list bool) (isc : bool) : bool :=
+  match c_geom (cellf g c) with
+  | Some t => match node_at t p with
+              | Some (Leaf b _ cp) => if Bool.eqb b isc then opt_is cp c else true
+              | _ => true
+              end
+  | None => true
+  end.
+
+(* Links (cell.surfaces / cell.complements cover the geometry) survives this operation *)
+Definition links_safe (g : st) (o : op) : bool :=
+  match o with
+  | IopSet _ _ _ => negb (is_conflict (snd (step g o)))
+  | IopIn c p b e => andb (negb (is_conflict (snd (step g o)))) (iop_linked g c p b e false)
+  | IopChild c p s b e => andb (negb (is_conflict (snd (step g o)))) (iop_linked g c (p ++ [s]) b e true)
+  | SetDiv c p isc _ => andb (negb (is_conflict (snd (step g o)))) (div_linked g c p isc)
+  | Dedup _ | Relink => false
+  | _ => true
+  end.
+
+(* "every member is linked to the problem" survives this operation *)
+Definition linked_safe (g : st) (o : op) : bool :=
+  match o with
+  | AddChildren | Dedup _ | Relink => false
+  | _ => true
+  end.
+
+Definition in_member_universe (g : st) (c : oid) : bool :=
+  match c_univ (cellf g c) with
+  | Some u => andb (mem_o u (coll g KUniv)) (plink g KUniv u)
+  | None => false
+  end.
+
+(* "every member cell is in a universe held by the problem" survives this operation *)
+Definition univ_safe (g : st) (o : op) : bool :=
+  match o with
+  | SetUniv _ u => andb (mem_o u (coll g KUniv)) (plink g KUniv u)
+  | Remove KUniv u => negb (existsb (fun c => opt_is (c_univ (cellf g c)) u) (coll g KCell))
+  | Append KCell x => in_member_universe g x
+  | Extend KCell l | Iadd KCell l => forallb (in_member_universe g) l
+  | Dedup _ | Relink => false
+  | _ => true
+  end.
+
+Fixpoint all_safe (safe : st -> op -> bool) (g : st) (ops : list op) : bool :=
+  match ops with
+  | [] => true
+  | o :: r => andb (safe g o) (all_safe safe (fst (step g o)) r)
+  end.
+
 (* ================================================================ wire protocol
    request  = hdr | cells | surfs | mats | trs | univs | mts | dins | ops      (items separated by ';')
      hdr    : rm rmt rtr du df dc        du, df = "-" or comma list of numbers / "j";  dc = 0 | 1
@@ -1364,7 +1435,8 @@ Fixpoint run_show (g : st) (ro : roster) (ops : list op) (acc : list string) : l
   match ops with
   | [] => rev acc
   | o :: r => let (g1, x) := step g o in
-              run_show g1 ro r ((show_res x ++ "!" ++ dump g1 ro) :: acc)
+              run_show g1 ro r ((show_res x ++ "!" ++ dump g1 ro ++ "/S=" ++ show_b (links_safe g o)
+                                 ++ show_b (linked_safe g o) ++ show_b (univ_safe g o)) :: acc)
   end.
 
 Definition run_Graph (req : string) : string :=
